@@ -19,6 +19,8 @@ from .core import DomainError, HarnessError, SymBool, cur, have_ctx
 
 Number = Union[int, float, Fraction]
 
+CONFIG = {"exp_uf": None}
+
 
 def _is_number(x) -> bool:
     return isinstance(x, (int, float, Fraction, np.integer, np.floating)) and not isinstance(x, bool)
@@ -60,21 +62,110 @@ def _is_one(a) -> bool:
 
 
 class SymReal:
-    """value = n/d with d > 0 under the path condition. sign: '+', '0+' or None (known sign tag)."""
+    """value = c * prod(num_i^k_i) / prod(den_j^m_j).
 
-    __slots__ = ("n", "d", "sign")
+    c is an exact Fraction; factors are z3 Real terms identified by AST identity (z3 hash-conses
+    terms, so `a0 + a1` built twice is the same factor) and are cancelled between numerator and
+    denominator, and additions use the least common multiple of the factored denominators.  This keeps
+    the repeated normalisations w/sum(w) that the sampler performs from blowing up polynomial degrees.
+    Every denominator factor is positive under the path condition, so comparisons are posed
+    cross-multiplied.  `pos` holds the ids of factors known to be positive; sign is a whole-value tag
+    ('+', '0+' or None)."""
 
-    def __init__(self, n, d=_ONE, sign: Optional[str] = None):
-        self.n = n
-        self.d = d
+    __slots__ = ("c", "num", "den", "sign")
+
+    def __init__(self, n=None, d=_ONE, sign: Optional[str] = None, _raw=None):
+        if _raw is not None:
+            self.c, self.num, self.den, self.sign = _raw
+            return
+        self.c = Fraction(1)
+        self.num = {}
+        self.den = {}
         self.sign = sign
+        n = z3.simplify(n) if z3.is_rational_value(n) is False and False else n
+        if z3.is_rational_value(n):
+            self.c = Fraction(n.numerator_as_long(), n.denominator_as_long())
+            if self.sign is None:
+                self.sign = "+" if self.c > 0 else ("0+" if self.c == 0 else None)
+        else:
+            self.num[n.get_id()] = (n, 1, sign == "+")
+        if not _is_one(d):
+            if z3.is_rational_value(d):
+                self.c = self.c / Fraction(d.numerator_as_long(), d.denominator_as_long())
+            else:
+                self.den[d.get_id()] = (d, 1, True)
+
+    # ---- representation helpers
+    @staticmethod
+    def _prod(fs):
+        t = None
+        for (term, k, _p) in fs.values():
+            for _ in range(k):
+                t = term if t is None else t * term
+        return t
+
+    @property
+    def n(self):
+        """numerator term c * prod(num)."""
+        p = SymReal._prod(self.num)
+        if p is None:
+            return _rv(self.c)
+        return p if self.c == 1 else _rv(self.c) * p
+
+    @property
+    def d(self):
+        p = SymReal._prod(self.den)
+        return _ONE if p is None else p
+
+    @staticmethod
+    def _merge(a, b):
+        out = dict(a)
+        for i, (t, k, p) in b.items():
+            if i in out:
+                out[i] = (t, out[i][1] + k, out[i][2] or p)
+            else:
+                out[i] = (t, k, p)
+        return out
+
+    @staticmethod
+    def _cancel(num, den):
+        common = [i for i in num if i in den]
+        if not common:
+            return num, den
+        num, den = dict(num), dict(den)
+        for i in common:
+            tn, kn, pn = num[i]
+            td, kd, pd = den[i]
+            m = min(kn, kd)
+            if kn - m:
+                num[i] = (tn, kn - m, pn or pd)
+            else:
+                del num[i]
+            if kd - m:
+                den[i] = (td, kd - m, pd)
+            else:
+                del den[i]
+        return num, den
+
+    @staticmethod
+    def _minus(a, b):
+        """factor multiset a with the powers of b removed (b <= a)."""
+        out = {}
+        for i, (t, k, p) in a.items():
+            kk = k - (b[i][1] if i in b else 0)
+            if kk > 0:
+                out[i] = (t, kk, p)
+        return out
+
+    def _num_positive(self) -> bool:
+        return all(p for (_t, _k, p) in self.num.values())
 
     # ---- construction helpers
     @staticmethod
     def const(x) -> "SymReal":
         fr = _frac(x)
         s = "+" if fr > 0 else ("0+" if fr == 0 else None)
-        return SymReal(_rv(fr), _ONE, s)
+        return SymReal(_raw=(fr, {}, {}, s))
 
     @staticmethod
     def lift(x) -> "SymReal":
@@ -87,16 +178,16 @@ class SymReal:
         return SymReal.const(x)
 
     def concrete(self) -> Optional[Fraction]:
-        n = z3.simplify(self.n)
-        d = z3.simplify(self.d)
-        if z3.is_rational_value(n) and z3.is_rational_value(d):
-            return Fraction(n.numerator_as_long(), n.denominator_as_long()) / Fraction(
-                d.numerator_as_long(), d.denominator_as_long())
+        if self.c == 0:
+            return Fraction(0)
+        if not self.num and not self.den:
+            return self.c
         return None
 
     def term(self):
-        """single z3 term n/d (only for reporting / model evaluation)."""
-        return self.n if _is_one(self.d) else self.n / self.d
+        """single z3 term (for reporting, model evaluation, UF arguments)."""
+        d = SymReal._prod(self.den)
+        return self.n if d is None else self.n / d
 
     # ---- arithmetic
     def __add__(self, o):
@@ -105,17 +196,52 @@ class SymReal:
         if isinstance(o, np.ndarray):
             return NotImplemented
         o = SymReal.lift(o)
+        if self.c == 0:
+            return o
+        if o.c == 0:
+            return self
         sign = None
         if self.sign and o.sign:
             sign = "+" if "+" in (self.sign, o.sign) else "0+"
-        if self.d is o.d or (_is_one(self.d) and _is_one(o.d)):
-            return SymReal(self.n + o.n, self.d, sign)
-        return SymReal(_mul(self.n, o.d) + _mul(o.n, self.d), _mul(self.d, o.d), sign)
+        # least common denominator
+        L = dict(self.den)
+        for i, (t, k, p) in o.den.items():
+            if i not in L or L[i][1] < k:
+                L[i] = (t, k, True)
+        ra = SymReal._minus(L, self.den)
+        rb = SymReal._minus(L, o.den)
+        # common numerator factors
+        common = {}
+        for i, (t, k, p) in self.num.items():
+            if i in o.num:
+                common[i] = (t, min(k, o.num[i][1]), p or o.num[i][2])
+        fa = SymReal._merge(SymReal._minus(self.num, common), ra)
+        fb = SymReal._merge(SymReal._minus(o.num, common), rb)
+        if not fa and not fb:
+            c = self.c + o.c
+            if c == 0:
+                return SymReal.const(0)
+            num, den = SymReal._cancel(common, L)
+            return SymReal(_raw=(c, num, den, sign))
+        c = self.c
+        ratio = o.c / self.c
+        pa = SymReal._prod(fa)
+        pb = SymReal._prod(fb)
+        ta = pa if pa is not None else _ONE
+        if pb is None:
+            tb = _rv(ratio)
+        else:
+            tb = pb if ratio == 1 else _rv(ratio) * pb
+        T = ta + tb
+        tpos = (ratio > 0) and all(p for (_t, _k, p) in fa.values()) and all(p for (_t, _k, p) in fb.values())
+        num = SymReal._merge(common, {T.get_id(): (T, 1, tpos)})
+        num, den = SymReal._cancel(num, L)
+        return SymReal(_raw=(c, num, den, sign))
 
     __radd__ = __add__
 
     def __neg__(self):
-        return SymReal(-self.n, self.d, None)
+        return SymReal(_raw=(-self.c, self.num, self.den, None if self.c != 0 else "0+"))
 
     def __pos__(self):
         return self
@@ -123,13 +249,10 @@ class SymReal:
     def __sub__(self, o):
         if isinstance(o, (LogVal, np.ndarray)):
             return NotImplemented
-        o = SymReal.lift(o)
-        if self.d is o.d or (_is_one(self.d) and _is_one(o.d)):
-            return SymReal(self.n - o.n, self.d, None)
-        return SymReal(_mul(self.n, o.d) - _mul(o.n, self.d), _mul(self.d, o.d), None)
+        return self + (-SymReal.lift(o))
 
     def __rsub__(self, o):
-        return SymReal.lift(o) - self
+        return SymReal.lift(o) + (-self)
 
     def __mul__(self, o):
         if isinstance(o, LogVal):
@@ -142,19 +265,43 @@ class SymReal:
             sign = "+" if (self.sign == "+" and o.sign == "+") else "0+"
         elif o is self:
             sign = "0+"
-        return SymReal(_mul(self.n, o.n), _mul(self.d, o.d), sign)
+        c = self.c * o.c
+        if c == 0:
+            return SymReal.const(0)
+        num = SymReal._merge(self.num, o.num)
+        den = SymReal._merge(self.den, o.den)
+        num, den = SymReal._cancel(num, den)
+        return SymReal(_raw=(c, num, den, sign))
 
     __rmul__ = __mul__
 
     def reciprocal(self) -> "SymReal":
-        if self.sign == "+":
-            return SymReal(self.d, self.n, "+")
+        if self.c == 0:
+            raise DomainError("division by zero in the exact-real domain")
+        if self.sign == "+" or self._num_positive():
+            sg = "+" if (self.sign == "+" or self.c > 0) else None
+            num = {i: (t, k, True) for i, (t, k, p) in self.den.items()}
+            den = {i: (t, k, True) for i, (t, k, p) in self.num.items()}
+            return SymReal(_raw=(1 / self.c, num, den, sg))
+        # unknown sign of the numerator factors: decide it through the solver
+        unk = {i: f for i, f in self.num.items() if not f[2]}
+        known = {i: f for i, f in self.num.items() if f[2]}
+        P = SymReal._prod(unk)
         c = cur()
-        if c.branch(self.n > 0):
-            return SymReal(self.d, self.n, "+")
-        if c.branch(self.n < 0):
-            return SymReal(-self.d, -self.n, None)
-        raise DomainError("division by zero in the exact-real domain")
+        if c.branch(P > 0):
+            newden = SymReal._merge({i: (t, k, True) for i, (t, k, p) in known.items()},
+                                    {P.get_id(): (P, 1, True)} if len(unk) > 1 or list(unk.values())[0][1] > 1
+                                    else {i: (t, k, True) for i, (t, k, p) in unk.items()})
+            cc = 1 / self.c
+        elif c.branch(P < 0):
+            Q = -P
+            newden = SymReal._merge({i: (t, k, True) for i, (t, k, p) in known.items()}, {Q.get_id(): (Q, 1, True)})
+            cc = -1 / self.c
+        else:
+            raise DomainError("division by zero in the exact-real domain")
+        num = {i: (t, k, True) for i, (t, k, p) in self.den.items()}
+        sg = "+" if cc > 0 else None
+        return SymReal(_raw=(cc, num, newden, sg))
 
     def __truediv__(self, o):
         if isinstance(o, np.ndarray):
@@ -176,36 +323,52 @@ class SymReal:
             if k == 0:
                 return SymReal.const(1)
             base = self if k > 0 else self.reciprocal()
-            r = base
-            for _ in range(abs(k) - 1):
-                r = r * base
-            if abs(k) % 2 == 0 and r.sign is None:
-                r = SymReal(r.n, r.d, "0+")
-            return r
+            kk = abs(k)
+            num = {i: (t, p * kk, pos or kk % 2 == 0) for i, (t, p, pos) in base.num.items()}
+            den = {i: (t, p * kk, True) for i, (t, p, pos) in base.den.items()}
+            sign = base.sign
+            if kk % 2 == 0:
+                sign = "+" if base.sign == "+" else "0+"
+            elif sign is None:
+                sign = None
+            return SymReal(_raw=(base.c ** kk, num, den, sign))
         if fe == Fraction(1, 2):
             return self.sqrt()
         raise HarnessError(f"unsupported exponent {e} on SymReal")
 
     def sqrt(self) -> "SymReal":
         c = cur()
-        cc = self.concrete()
-        if cc is not None:
-            r = Fraction(math.isqrt(cc.numerator), 1) / Fraction(math.isqrt(cc.denominator), 1) if cc >= 0 else None
-            if r is not None and r * r == cc:
-                return SymReal.const(r)
-        if self.sign is None and not c.branch(self.n >= 0):
-            raise DomainError("sqrt of a negative value")
+        if self.c == 0:
+            return SymReal.const(0)
+        # exact roots of perfect squares of positive factors
+        def isq(fr):
+            if fr < 0:
+                return None
+            a, b = math.isqrt(fr.numerator), math.isqrt(fr.denominator)
+            return Fraction(a, b) if a * a == fr.numerator and b * b == fr.denominator else None
+        rc = isq(self.c)
+        if rc is not None and all(k % 2 == 0 and p for (_t, k, p) in self.num.values()) and \
+                all(k % 2 == 0 for (_t, k, p) in self.den.values()):
+            num = {i: (t, k // 2, p) for i, (t, k, p) in self.num.items()}
+            den = {i: (t, k // 2, p) for i, (t, k, p) in self.den.items()}
+            return SymReal(_raw=(rc, num, den, "+" if rc > 0 else "0+"))
+        if self.sign is None and not (self.c > 0 and self._num_positive()):
+            if not c.branch(self.n >= 0):
+                raise DomainError("sqrt of a negative value")
         r = z3.Real(c.fresh_name("sqrt"))
         c.assume(r >= 0)
         c.assume(_mul(r * r, self.d) == self.n)
-        return SymReal(r, _ONE, "+" if self.sign == "+" else "0+")
+        pos = self.sign == "+" or (self.c > 0 and self._num_positive())
+        if pos:
+            c.assume(r > 0)
+        return SymReal(_raw=(Fraction(1), {r.get_id(): (r, 1, pos)}, {}, "+" if pos else "0+"))
 
     def __abs__(self):
-        if self.sign:
+        if self.sign or (self.c > 0 and self._num_positive()):
             return self
         if cur().branch(self.n >= 0):
-            return SymReal(self.n, self.d, "0+")
-        return SymReal(-self.n, self.d, "+")
+            return SymReal(_raw=(self.c, self.num, self.den, "0+"))
+        return SymReal(_raw=(-self.c, self.num, self.den, "+"))
 
     def square(self):
         return self * self
@@ -213,7 +376,7 @@ class SymReal:
     def conjugate(self):
         return self
 
-    # ---- comparisons (cross-multiplied; denominators are positive)
+    # ---- comparisons (cross-multiplied; denominator factors are positive)
     def _cmp(self, o, op):
         if isinstance(o, np.ndarray):
             return NotImplemented
@@ -222,8 +385,29 @@ class SymReal:
             val = {"lt": pos, "le": pos, "gt": not pos, "ge": not pos, "eq": False, "ne": True}[op]
             return SymBool(z3.BoolVal(val))
         o = SymReal.lift(o)
-        a = _mul(self.n, o.d)
-        b = _mul(o.n, self.d)
+        # multiply both sides by lcm(den) / gcd(den): only the non-shared denominator factors
+        shared = {}
+        for i, (t, k, p) in self.den.items():
+            if i in o.den:
+                shared[i] = (t, min(k, o.den[i][1]), True)
+        da = SymReal._minus(self.den, shared)
+        db = SymReal._minus(o.den, shared)
+        na, nb = self.num, o.num
+        # drop positive numerator factors present on both sides
+        both = {}
+        if self.c != 0 and o.c != 0:
+            for i, (t, k, p) in na.items():
+                if i in nb and p and nb[i][2]:
+                    both[i] = (t, min(k, nb[i][1]), True)
+        la = SymReal._merge(SymReal._minus(na, both), db)
+        lb = SymReal._merge(SymReal._minus(nb, both), da)
+        pa, pb = SymReal._prod(la), SymReal._prod(lb)
+        a = _rv(self.c) if pa is None else (pa if self.c == 1 else _rv(self.c) * pa)
+        b = _rv(o.c) if pb is None else (pb if o.c == 1 else _rv(o.c) * pb)
+        if self.c == 0:
+            a = _ZERO
+        if o.c == 0:
+            b = _ZERO
         if op == "lt":
             return SymBool(a < b)
         if op == "le":
@@ -259,20 +443,34 @@ class SymReal:
 
     # ---- numpy object-loop hooks (np.sqrt(arr) calls elem.sqrt(), etc.)
     def log(self) -> "LogVal":
-        if self.sign != "+":
+        if self.sign != "+" and not (self.c > 0 and self._num_positive()):
             if not cur().branch(self.n > 0):
                 raise DomainError("log of a non-positive value")
-            return LogVal({}, SymReal(self.n, self.d, "+"))
-        return LogVal({}, self)
+            return LogVal({}, SymReal(_raw=(self.c, self.num, self.den, "+")))
+        return LogVal({}, self if self.sign == "+" else SymReal(_raw=(self.c, self.num, self.den, "+")))
 
     def exp(self):
         cc = self.concrete()
         if cc is not None and cc == 0:
             return SymReal.const(1)
+        if CONFIG["exp_uf"] is not None:
+            # uninterpreted, positive, (congruent) exponential: sound over-approximation of exp
+            return SymReal(CONFIG["exp_uf"](self.term()), _ONE, "+")
         raise HarnessError("exp of a plain real is transcendental; use LogVal inputs")
+
+    def __mod__(self, m):
+        """Python/numpy float modulo for a concrete positive modulus: x - m*floor(x/m)."""
+        mf = _frac(m)
+        if mf <= 0:
+            raise HarnessError("modulus must be a positive constant")
+        q = (self / mf).floor()
+        return self - q * mf
 
     def floor(self):
         c = cur()
+        cc = self.concrete()
+        if cc is not None:
+            return SymReal.const(math.floor(cc))
         k = z3.Int(c.fresh_name("floor"))
         kr = z3.ToReal(k)
         c.assume(z3.And(_mul(kr, self.d) <= self.n, self.n < _mul(kr + 1, self.d)))
@@ -309,9 +507,6 @@ class SymReal:
 
     def __repr__(self):
         return f"SymReal({z3.simplify(self.term())})"
-
-    def eval(self, model_values: Dict[str, Fraction]) -> Fraction:
-        raise NotImplementedError
 
 
 def sym_max(a, b):
@@ -606,21 +801,17 @@ class LogVal:
 
     # ---- exponentiation
     def exp(self) -> SymReal:
-        n = _ONE
-        d = _ONE
+        num, den = {}, {}
         for at, c in self.coef.items():
             k = c * at.D
             if k.denominator != 1:
                 raise HarnessError(f"exponent {c} of {at} is off the declared grid 1/{at.D}")
             k = k.numerator
-            p = at.a
-            for _ in range(abs(k) - 1):
-                p = p * at.a
             if k > 0:
-                n = _mul(n, p)
+                num[at.a.get_id()] = (at.a, k, True)
             elif k < 0:
-                d = _mul(d, p)
-        return SymReal(n, d, "+") * self.q
+                den[at.a.get_id()] = (at.a, -k, True)
+        return SymReal(_raw=(Fraction(1), num, den, "+")) * self.q
 
     def logaddexp(self, o):
         if isinstance(o, float) and math.isinf(o) and o < 0:
